@@ -11,6 +11,7 @@ CONSTANTS
   WithClose = TRUE
   WithDrop = TRUE
   AtomicSend = TRUE
+  DropReads = FALSE
   SerialCloseDrop = FALSE
 INVARIANTS TypeOK NoPanic
 PROPERTIES CloseCompletes
